@@ -399,6 +399,9 @@ def _c11(ctx, ad, cfg, env, runner, rng, drv, mult):
             if int(r["ts"].step_type) == 2 and t_last is None:
                 t_last = r["t"] + 1
                 ctx.nontrivial.add((ad.name, cfg.cid, seed))
+                if t_last > h:
+                    ctx.fail(ad.name, "horizon_exceeded", f"episode ended at step {t_last}, after its structural horizon {h}",
+                             {"env": ad.name, "config": cfg.cid, "reset_seed": seed, "policy": pol, "horizon": h})
             if r["t"] + 1 > h and t_last is None:
                 ctx.fail(ad.name, "horizon_exceeded", f"episode still running after {r['t'] + 1} steps; structural horizon is {h}",
                          {"env": ad.name, "config": cfg.cid, "reset_seed": seed, "policy": pol, "horizon": h})
